@@ -87,32 +87,38 @@ def replay_all(jobs):
 EVENT_FIELDS = ("act", "h", "args", "raised", "fresh_raised", "res_ok", "obs", "bad", "tmpl", "earlier", "grew", "inputs")
 
 
-def validate(ctx, traces, what, workers=8, handles=(1, 2, 3), base=(1, 2)):
+def validate(ctx, traces, what, workers=8, handles=(1, 2, 3), base=(1, 2), batch=30000):
     """TLC validates the traces against GridLazy (TraceGridLazy.tla).
     Returns {tid: [(line, clause)]} and {tid: [(line, names)]} (drift)."""
     bad = [t for t in traces if "harness_error" in t]
     if bad:
         raise Machinery("replay failed in the harness for %d histories, e.g. %s: %s" % (len(bad), bad[0]["hist"], bad[0]["harness_error"]))
-    path = os.path.join(ctx.work, "traces_%d.ndjson" % len(ctx.tlc_runs))
-    with open(path, "w") as fh:
-        for t in traces:
-            evs = [{k: e.get(k, []) for k in EVENT_FIELDS} for e in t["events"] if not e.get("skipped")]
-            fh.write(json.dumps({"tid": t["tid"], "init": t["init"], "events": evs}) + "\n")
-    c = cfg("MechIntended", ["all"], handles, base, 3, ["TraceTypeOK"], "TraceInit", "TraceNext")
-    r = ctx.tlc_ok("TraceGridLazy", c, what=what, workers=workers, env={"TRACE_FILE": path}, count=False, timeout=3000)
     viol, drift, ended = {}, {}, {}
-    for v in r.prints:
-        if not isinstance(v, tuple):
-            continue
-        if v[0] == "V" and len(v) == 4:
-            viol.setdefault(v[1], []).append((v[2], v[3]))
-        elif v[0] == "D" and len(v) == 4:
-            drift.setdefault(v[1], []).append((v[2], sorted(v[3])))
-        elif v[0] == "E" and len(v) == 3:
-            ended[v[1]] = v[2]
-    n_v = r.out.count('"V"')
-    if sum(len(x) for x in viol.values()) != n_v:
-        raise Machinery("trace validator printed %d verdict lines, parsed %d" % (n_v, sum(len(x) for x in viol.values())))
+    # TLC deserialises the whole trace file in memory: validate in batches
+    for b0 in range(0, len(traces), batch):
+        part = traces[b0 : b0 + batch]
+        path = os.path.join(ctx.work, "traces_%d_%d.ndjson" % (len(ctx.tlc_runs), b0))
+        with open(path, "w") as fh:
+            for t in part:
+                evs = [{k: e.get(k, []) for k in EVENT_FIELDS} for e in t["events"] if not e.get("skipped")]
+                fh.write(json.dumps({"tid": t["tid"], "init": t["init"], "events": evs}) + "\n")
+        c = cfg("MechIntended", ["all"], handles, base, 3, ["TraceTypeOK"], "TraceInit", "TraceNext")
+        r = ctx.tlc_ok("TraceGridLazy", c, what=what + (" [%d..%d]" % (b0, b0 + len(part)) if len(traces) > batch else ""), workers=workers, env={"TRACE_FILE": path}, count=False, timeout=3000)
+        n_parsed = 0
+        for v in r.prints:
+            if not isinstance(v, tuple):
+                continue
+            if v[0] == "V" and len(v) == 4:
+                viol.setdefault(v[1], []).append((v[2], v[3]))
+                n_parsed += 1
+            elif v[0] == "D" and len(v) == 4:
+                drift.setdefault(v[1], []).append((v[2], sorted(v[3])))
+            elif v[0] == "E" and len(v) == 3:
+                ended[v[1]] = v[2]
+        n_v = r.out.count('"V"')
+        if n_parsed != n_v:
+            raise Machinery("trace validator printed %d verdict lines, parsed %d" % (n_v, n_parsed))
+        os.remove(path)
     for t in traces:
         n = len([e for e in t["events"] if not e.get("skipped")])
         if n and ended.get(t["tid"]) != n:
@@ -121,7 +127,6 @@ def validate(ctx, traces, what, workers=8, handles=(1, 2, 3), base=(1, 2)):
                 % (t["tid"], ended.get(t["tid"]), n, json.dumps(t["hist"])[:400])
             )
     ctx.traces += len(traces)
-    os.remove(path)
     return viol, drift
 
 
